@@ -552,13 +552,13 @@ def length_programs(seed=0, compatible_cases=True, max_len=6):
                 yield ("lengths", kind, place, l1, l2), A.Program([A.Routine("def", 0, body)])
 
 
-SWITCH_BODIES = ("break", "op_break", "op_return", "jump_x", "op_jump_x", "fall", "op_fall")
+SWITCH_BODIES = ("break", "op_break", "op_return", "jump_x", "op_jump_x", "fall", "op_fall", "call_x_break", "call_d_break")
 
 
 def switch_programs(seed=0, compatible_cases=True, big=False):
     """G-switch: every switch with 3 cases (big: also 4 cases over 5 body kinds) x every body kind per case (only break,
     op + break, op + return, only a jump to a label behind the switch, op + such a jump, empty = falls through, op that falls
-    through) x default (none / op + break at the end / grouped with the last case), followed by an op, the label, an op and a
+    through, call to a label behind the switch / inside the default block + break) x default (none / op + break at the end or in front / grouped with the last case), followed by an op, the label, an op and a
     terminator.  Non-adjacent cases with the same target, cases that leave the routine (no common end) and shared jump targets
     are what the decompiler's case grouping and its switch writer have to tell apart."""
     inst = Instantiator(seed, compatible_cases)
@@ -576,17 +576,27 @@ def switch_programs(seed=0, compatible_cases=True, big=False):
             return [A.Op(inst.op(), []), A.Jump("X")]
         if kind == "fall":
             return []
+        if kind == "call_x_break":
+            return [A.Call("X"), A.Ctrl("break")]
+        if kind == "call_d_break":
+            return [A.Call("D"), A.Ctrl("break")]     # D: a label inside the default block (default == "last" only)
         return [A.Op(inst.op(), [])]
     plans = [(3, SWITCH_BODIES)]
     if big:
         plans.append((4, ("break", "op_break", "op_return", "jump_x", "op_fall")))
     for ncases, kinds_alpha in plans:
         for kinds in itertools.product(kinds_alpha, repeat=ncases):
-            for default in ("none", "last", "grouped"):
+            for default in ("none", "last", "grouped", "first"):
                 if kinds[-1] == "fall" and default != "last":
                     continue   # a switch that ends in an empty case is statically meaningless (C10's business)
+                if "call_d_break" in kinds and default not in ("last", "first"):
+                    continue
+                if default == "first" and ncases == 4:
+                    continue
                 inst.reset()
                 items = []
+                if default == "first":
+                    items.append(A.SwitchItem(None, [A.Label("D"), A.Op(inst.op("dflt"), []), A.Ctrl("break")]))
                 for ci, kd in enumerate(kinds):
                     if default == "grouped" and ci == ncases - 1:
                         items.append(A.SwitchItem(inst.case_header(), []))
@@ -594,7 +604,7 @@ def switch_programs(seed=0, compatible_cases=True, big=False):
                     else:
                         items.append(A.SwitchItem(inst.case_header(), mk(kd)))
                 if default == "last":
-                    items.append(A.SwitchItem(None, [A.Op(inst.op("dflt"), []), A.Ctrl("break")]))
+                    items.append(A.SwitchItem(None, [A.Label("D"), A.Op(inst.op("dflt"), []), A.Ctrl("break")]))
                 body = [A.Op(inst.op("before"), []), A.Switch(inst.switch_header(), items), A.Op(inst.op("between"), []),
                         A.Label("X"), A.Op(inst.op("after"), []), A.Ctrl("hold")]
                 yield ("switches", kinds, default), A.Program([A.Routine("def", 0, body)])
